@@ -8,6 +8,11 @@
 //!   reg k i life | adv d | purge | hs a i | rhs a i src | fhs a i | din a i | dinx a i src | rdin a i | junk a | dout a | tick
 //!   (hs = genuine handshake, rhs = replayed, fhs = forged: claimed static key of identity i, not produced by its owner)
 //!
+//!   plain <op>   (op = hs | rhs | fhs | din | dinx | rdin | junk | dout): the same operation through the compatibility
+//!   entry point `SnapTunServer::handle_incoming_packet` / `handle_outgoing_packet` instead of the `_with_session` one;
+//!   every public function of `impl SnapTunServer` that moves payloads is driven (`DRIVEN`, checked against the list the
+//!   translator regenerates from server.rs: stream `entry-points`), the entry point is chosen per operation at random
+//!   in the exhaustive, sampled and random streams, the directed histories run through each and through a random mix
 //! * time is virtual: the registry is driven with `base + t` and the server's authorisation layer is an adapter
 //!   around the *real* registry that substitutes `base + t` for the `Instant::now()` the server passes (the adapter
 //!   checks that the instant the server passes lies inside the call – oracle `C09:clock`);
@@ -62,6 +67,9 @@ enum Op {
     Junk { a: u64 },
     Dout { a: u64 },
     Tick,
+    /// the same operation (one that hands a datagram or a payload to the server) through the compatibility wrapper
+    /// `handle_incoming_packet` / `handle_outgoing_packet`
+    Plain(Box<Op>),
 }
 
 impl Op {
@@ -79,7 +87,19 @@ impl Op {
             Op::Junk { a } => format!("junk {a}"),
             Op::Dout { a } => format!("dout {a}"),
             Op::Tick => "tick".into(),
+            Op::Plain(op) => format!("plain {}", op.text()),
         }
+    }
+    /// does the operation call a packet-moving function of the server (so that the entry point is a choice)
+    fn enters_server(&self) -> bool {
+        matches!(self, Op::Hs { .. } | Op::Rhs { .. } | Op::Din { .. } | Op::Dinx { .. } | Op::Rdin { .. } | Op::Fhs { .. } | Op::Junk { .. } | Op::Dout { .. })
+    }
+    fn plain(self) -> Op {
+        if self.enters_server() { Op::Plain(Box::new(self)) } else { self }
+    }
+    /// entry point chosen at random (1/2) for operations that have two
+    fn via_random(self, rng: &mut Rng) -> Op {
+        if self.enters_server() && rng.chance(1, 2) { self.plain() } else { self }
     }
     fn parse(s: &str) -> Option<Op> {
         let w: Vec<&str> = s.split_whitespace().collect();
@@ -97,6 +117,13 @@ impl Op {
             "junk" => Op::Junk { a: n(1)? },
             "dout" => Op::Dout { a: n(1)? },
             "tick" => Op::Tick,
+            "plain" => {
+                let inner = Op::parse(s.trim_start().strip_prefix("plain")?)?;
+                if !inner.enters_server() {
+                    return None;
+                }
+                Op::Plain(Box::new(inner))
+            }
             _ => return None,
         })
     }
@@ -159,7 +186,25 @@ struct World {
     /// state): per identity the token key and expiry (virtual ms) of its latest registration, erased when another
     /// identity registers under the same key ("superseded ... until the identity registers again")
     ledger: [Option<(u64, u64)>; 4],
+    /// the current operation goes through `handle_incoming_packet` / `handle_outgoing_packet` (`Op::Plain`)
+    plain: bool,
+    /// payloads handed to the outgoing path of an address while the tunnel there had no peer with an unexpired
+    /// registration (or did not exist): none of them may ever be encrypted towards a client
+    handed_unauth: HashMap<u64, Vec<Vec<u8>>>,
 }
+
+/// Every `pub fn` of `impl SnapTunServer` and what this harness does with it; compared with the list the translator
+/// regenerates from server.rs (through the model driver's `entrypoints`) - a public function that is not listed here
+/// is an entry point nobody drives.
+const DRIVEN: &[(&str, &str)] = &[
+    ("new", "construct"),                                   // World::new
+    ("handle_incoming_packet", "incoming"),                 // World::incoming, Op::Plain
+    ("handle_incoming_packet_with_session", "incoming"),    // World::incoming
+    ("handle_outgoing_packet", "outgoing"),                 // Op::Plain(Dout)
+    ("handle_outgoing_packet_with_session", "outgoing"),    // Op::Dout
+    ("update_timers", "timers"),                            // Op::Tick
+    ("verif-hooks:verif_tunnels", "hook"),                  // World::state_str / tunnel_peer
+];
 
 fn addr(a: u64) -> SocketAddr {
     format!("192.168.1.{}:{}", a + 1, 4000 + a).parse().unwrap()
@@ -343,6 +388,8 @@ impl World {
             out_seq: 0,
             sent_out: HashMap::new(),
             ledger: [None; 4],
+            plain: false,
+            handed_unauth: HashMap::new(),
         }
     }
     fn t(&self) -> u64 {
@@ -447,24 +494,38 @@ impl World {
         let mut q = VecDeque::new();
         let peer_before = self.tunnel_peer(a);
         let t0 = Instant::now();
-        let res = catch(|| self.server.handle_incoming_packet_with_session(Packet::copy_from(bytes), addr(a), &mut q));
+        let plain = self.plain;
+        let entry = if plain { "handle_incoming_packet" } else { "handle_incoming_packet_with_session" };
+        *o.kinds.entry(format!("entry {entry}")).or_insert(0) += 1;
+        // both entry points as (payload handed to the caller = the SCION side, any other tunnel result)
+        let res: Result<(Option<Vec<u8>>, Option<TunnResult>), String> = if plain {
+            catch(|| self.server.handle_incoming_packet(Packet::copy_from(bytes), addr(a), &mut q)).map(|r| match r {
+                TunnResult::WriteToTunnel(p) => (Some(p[..].to_vec()), None),
+                r => (None, Some(r)),
+            })
+        } else {
+            catch(|| self.server.handle_incoming_packet_with_session(Packet::copy_from(bytes), addr(a), &mut q)).map(|r| match r {
+                HandleIncomingPacketResult::Forwarded { packet, .. } => (Some(packet[..].to_vec()), None),
+                HandleIncomingPacketResult::Result { result } => (None, Some(result)),
+            })
+        };
         self.check_clock(t0, &mut o.spec);
         let res = match res {
             Ok(r) => r,
             Err(m) => {
-                o.spec.push(("C09:panic".into(), format!("handle_incoming_packet_with_session panicked: {m}")));
+                o.spec.push(("C09:panic".into(), format!("{entry} panicked: {m}")));
                 return "panic".into();
             }
         };
         let peer_after = self.tunnel_peer(a);
         let rs = match &res {
-            HandleIncomingPacketResult::Forwarded { packet, .. } => {
+            (Some(packet), _) => {
                 o.forwarded += 1;
                 // ---- spec oracle: forwarded only for an identity with expiry > now, attributed to the right identity
                 let peer = peer_after;
                 match peer {
                     Some(p) if self.unexpired(p) => {}
-                    _ => o.spec.push(("C09:forwarded-unauthorized".into(), format!("payload forwarded from address {a} although tunnel peer {peer:?} has no unexpired registration at t={}", self.t()))),
+                    _ => o.spec.push(("C09:forwarded-unauthorized".into(), format!("payload handed to the SCION side by {entry} from address {a} although tunnel peer {peer:?} has no unexpired registration at t={}", self.t()))),
                 }
                 if signer.is_none() || signer != peer || peer_before.is_some_and(|b| Some(b) != peer) {
                     o.spec.push(("C09:attribution".into(), format!("payload produced by identity {signer:?} forwarded through the tunnel of identity {peer:?} (before: {peer_before:?})")));
@@ -474,14 +535,16 @@ impl World {
                         o.spec.push(("C09:attribution:payload".into(), "forwarded payload differs from what the client encrypted".into()));
                     }
                 }
-                format!("fwd:{}", hex(&packet[..]))
+                // `Forwarded` of the _with_session function, `TunnResult::WriteToTunnel` of the wrapper
+                format!("{}:{}", if plain { "wtt" } else { "fwd" }, hex(&packet[..]))
             }
-            HandleIncomingPacketResult::Result { result } => {
+            (None, Some(result)) => {
                 if matches!(result, TunnResult::Err(ana_gotatun::noise::errors::WireGuardError::UnexpectedPacket)) {
                     o.refused_unauth += 1;
                 }
                 err_name(result)
             }
+            (None, None) => unreachable!(),
         };
         // ---- spec oracle: a tunnel entry (which from then on attributes everything at that address to `peer_static`)
         // comes into being only through a handshake initiation that the holder of that key produced and that the
@@ -533,7 +596,7 @@ impl World {
                 peer => o.spec.push(("C09:network-output-unauthorized".into(), format!("tunnel output {net:?} towards address {a} although tunnel peer {peer:?} has no unexpired registration"))),
             }
         }
-        format!("in res={rs} net={}", if net.is_empty() { "-".to_string() } else { net.join(",") })
+        format!("{} res={rs} net={}", if plain { "inp" } else { "in" }, if net.is_empty() { "-".to_string() } else { net.join(",") })
     }
 
     /// a `Data` packet emitted by the server towards address `a`: who can read it?
@@ -542,6 +605,9 @@ impl World {
         for (i, pl) in &readers {
             if Some(*i) != peer {
                 o.spec.push(("C09:attribution:outbound".into(), format!("outbound data for the tunnel of identity {peer:?} is readable by the client of identity {i}")));
+            }
+            if self.handed_unauth.get(&a).is_some_and(|v| v.iter().any(|x| x == pl)) {
+                o.spec.push(("C09:encrypted-unauthorized".into(), format!("the client of identity {i} at address {a} decrypted payload {} that was handed to the outgoing path while the tunnel there had no peer with an unexpired registration", hex(pl))));
             }
             if !pl.is_empty() && !self.sent_out.get(&a).is_some_and(|v| v.iter().any(|x| x == pl)) {
                 o.spec.push(("C09:attribution:payload".into(), "client decrypted a payload that was never handed to the outgoing path of that address".into()));
@@ -685,35 +751,55 @@ impl World {
                 let payload = vec![0xee, *a as u8, self.out_seq];
                 self.sent_out.entry(*a).or_default().push(payload.clone());
                 let peer = self.tunnel_peer(*a);
+                let authorised = peer.is_some_and(|p| self.unexpired(p));
+                if !authorised {
+                    self.handed_unauth.entry(*a).or_default().push(payload.clone());
+                }
+                let plain = self.plain;
+                let (entry, tag) = if plain { ("handle_outgoing_packet", "outp") } else { ("handle_outgoing_packet_with_session", "out") };
+                *o.kinds.entry(format!("entry {entry}")).or_insert(0) += 1;
                 let t0 = Instant::now();
-                let r = catch(|| self.server.handle_outgoing_packet_with_session(Packet::copy_from(&payload[..]), addr(*a)));
+                // both entry points as: None = refused / nothing; Some(p) = the payload was accepted into the tunnel
+                // (_with_session: `Some`, p = network_packet) or the wrapper returned the packet p to send to the client
+                let r: Result<Option<Option<WgKind>>, String> = if plain {
+                    catch(|| self.server.handle_outgoing_packet(Packet::copy_from(&payload[..]), addr(*a))).map(|r| r.map(Some))
+                } else {
+                    catch(|| self.server.handle_outgoing_packet_with_session(Packet::copy_from(&payload[..]), addr(*a))).map(|r| r.map(|h| h.network_packet))
+                };
                 self.check_clock(t0, &mut o.spec);
                 let s = match r {
                     Err(m) => {
-                        o.spec.push(("C09:panic".into(), format!("handle_outgoing_packet_with_session panicked: {m}")));
+                        o.spec.push(("C09:panic".into(), format!("{entry} panicked: {m}")));
                         "panic".to_string()
                     }
-                    Ok(None) => "out none".into(),
-                    Ok(Some(h)) => {
+                    Ok(None) => format!("{tag} none"),
+                    Ok(Some(np)) => {
                         o.encrypted += 1;
-                        // ---- spec oracle: accepted into the tunnel only for an identity with expiry > now
-                        match peer {
-                            Some(p) if self.unexpired(p) => {}
-                            _ => o.spec.push(("C09:encrypted-unauthorized".into(), format!("outbound payload accepted for address {a} although tunnel peer {peer:?} has no unexpired registration at t={}", self.t()))),
+                        // ---- spec oracle: accepted into the tunnel / answered with a packet for the client only for an
+                        // identity with expiry > now ("an outbound payload is encrypted towards a client only if ...")
+                        if !authorised {
+                            o.spec.push(("C09:encrypted-unauthorized".into(), format!("{entry}(..) is Some for address {a}: outbound payload accepted although tunnel peer {peer:?} has no unexpired registration at t={}", self.t())));
                         }
-                        match h.network_packet {
-                            None => "out some:none".into(),
+                        match np {
+                            None => format!("{tag} some:none"),
                             Some(WgKind::Data(p)) => {
                                 let b = p.into_bytes()[..].to_vec();
-                                format!("out some:{}", self.server_data(*a, &b, peer, o))
+                                format!("{tag} some:{}", self.server_data(*a, &b, peer, o))
                             }
-                            Some(WgKind::HandshakeInit(_)) => "out some:init".into(),
-                            Some(WgKind::HandshakeResp(_)) => "out some:resp".into(),
-                            Some(WgKind::CookieReply(_)) => "out some:cookie".into(),
+                            Some(WgKind::HandshakeInit(_)) => format!("{tag} some:init"),
+                            Some(WgKind::HandshakeResp(_)) => format!("{tag} some:resp"),
+                            Some(WgKind::CookieReply(_)) => format!("{tag} some:cookie"),
                         }
                     }
                 };
-                (format!("out {a} {}", hex(&payload)), s)
+                (format!("{tag} {a} {}", hex(&payload)), s)
+            }
+            Op::Plain(inner) => {
+                // the model request of a wrapped incoming operation is `inp ...` (the outgoing one says `outp` itself)
+                self.plain = true;
+                let (req, out) = self.apply(inner, o);
+                self.plain = false;
+                (req.strip_prefix("in ").map(|r| format!("inp {r}")).unwrap_or(req), out)
             }
             Op::Tick => {
                 let r = catch(|| self.server.update_timers());
@@ -1325,7 +1411,7 @@ fn registry_dfs(depth: usize, lean: &mut Lean, rep: &mut Report) {
 
 /// all histories of exactly `len` operations over `alpha`, spread over `threads` workers (each with its own model
 /// driver); returns (evaluated, canonical lines of non-trivial histories, failing histories, counters)
-fn exhaustive_parallel(alpha: &[Op], len: usize, driver: &str, threads: usize) -> (u64, Vec<String>, Vec<Vec<Op>>, BTreeMap<String, u64>) {
+fn exhaustive_parallel(alpha: &[Op], len: usize, driver: &str, threads: usize, seed: u64) -> (u64, Vec<String>, Vec<Vec<Op>>, BTreeMap<String, u64>) {
     let results: Vec<_> = std::thread::scope(|sc| {
         let hs: Vec<_> = (0..threads)
             .map(|t| {
@@ -1337,8 +1423,11 @@ fn exhaustive_parallel(alpha: &[Op], len: usize, driver: &str, threads: usize) -
                     while code < total {
                         let mut c = code;
                         let mut h = Vec::with_capacity(len);
+                        // the entry point of every operation: a generator of its own per history (reproducible
+                        // whatever the number of workers)
+                        let mut via = Rng::new(seed ^ (code as u64).wrapping_mul(0x9E37_79B9_7F4A_7C15));
                         for _ in 0..len {
-                            h.push(alpha[c % alpha.len()].clone());
+                            h.push(alpha[c % alpha.len()].clone().via_random(&mut via));
                             c /= alpha.len();
                         }
                         let o = run_history(&h, &mut lean);
@@ -1421,7 +1510,7 @@ fn gen_random(rng: &mut Rng, maxlen: usize) -> Vec<Op> {
             95..=96 => Op::Fhs { a, i },
             _ => Op::Tick,
         };
-        v.push(op);
+        v.push(op.via_random(rng));
     }
     v
 }
@@ -1481,7 +1570,9 @@ fn main() {
     let mut rng = Rng::new(args.seed);
     let mut rep = Report::new(
         "C09",
-        "case = operation history (register / clock advance / purge / handshake / data in / data out / replay / junk / tick) \
+        "case = operation history (register / clock advance / purge / handshake / data in / data out / replay / junk / tick; \
+         every datagram and outbound payload through one of the two public entry points of SnapTunServer - \
+         handle_*_packet_with_session or the wrapper handle_*_packet - named in the history as `plain <op>`) \
          applied to the real IdentityRegistry + SnapTunServer + gotatun Tunn clients and to the Lean model, compared after \
          every operation (outcome, network output, tunnel table, association map, registrations, verdicts). Non-trivial = \
          at least one payload forwarded or encrypted AND at least one packet refused for lack of authorisation (full-system \
@@ -1491,6 +1582,16 @@ fn main() {
          updates have at least two distinct sequential results (order-sensitive); distinct by scenario (lost updates show for \
          order-insensitive sets too)",
     );
+    // ---- tie: the public functions of `impl SnapTunServer` (regenerated from server.rs by the translator, reported by
+    // the model driver together with the role the model gives each) are exactly the ones this harness drives
+    {
+        let want = DRIVEN.iter().map(|(n, r)| format!("{n}={r}")).collect::<Vec<_>>().join(" ");
+        let got = lean.ask("entrypoints");
+        if lean.differs(&got, &want) {
+            rep.disagree("entry-points", json!({"line": "entrypoints", "note": "pub fn of impl SnapTunServer (source, via translator + model driver) vs. the entry points the harness drives"}), &want, &got);
+        }
+        rep.hit_n("public functions of SnapTunServer driven", DRIVEN.len() as u64);
+    }
     let mut histories: Vec<(String, Vec<Op>)> = vec![];
     let mut conc_corpus: Vec<Scenario> = vec![];
     let mut conc_replay: Vec<Scenario> = vec![];
@@ -1518,14 +1619,18 @@ fn main() {
         histories.clear();
     } else {
         for (name, h) in directed() {
-            histories.push((format!("directed:{name}"), parse_hist(h).expect("directed history")));
+            // through the _with_session functions, through the compatibility wrappers, and through a random mix
+            let h = parse_hist(h).expect("directed history");
+            histories.push((format!("directed:{name}"), h.clone()));
+            histories.push((format!("directed:{name}:plain"), h.iter().cloned().map(Op::plain).collect()));
+            histories.push((format!("directed:{name}:mixed"), h.into_iter().map(|o| o.via_random(&mut rng)).collect()));
         }
         // exhaustive short histories over the small alphabet (2 keys x 3 identities x 2 addresses)
         let alpha = alphabet_small();
         let exh = args.scale(2, 3);
         let mut idx = vec![0usize; 1];
         loop {
-            histories.push(("exhaustive".into(), idx.iter().map(|&x| alpha[x].clone()).collect()));
+            histories.push(("exhaustive".into(), idx.iter().map(|&x| alpha[x].clone().via_random(&mut rng)).collect()));
             // next index vector (all lengths 1..=exh)
             let mut p = idx.len();
             loop {
@@ -1548,7 +1653,7 @@ fn main() {
         }
         // thorough: every history of exactly exh+1 operations, in parallel; failures are re-run (and shrunk) below
         if args.thorough() {
-            let (n, nontriv, failing, counters) = exhaustive_parallel(&alpha, exh + 1, &args.driver, 14);
+            let (n, nontriv, failing, counters) = exhaustive_parallel(&alpha, exh + 1, &args.driver, 14, args.seed);
             for l in &nontriv {
                 rep.case(l, true);
             }
@@ -1567,7 +1672,7 @@ fn main() {
         // sampled histories of length exh+1 ..= 6 over the same alphabet
         for _ in 0..args.scale(3000, 100000) {
             let n = rng.range(exh as u64 + 1, 6) as usize;
-            histories.push(("sampled".into(), (0..n).map(|_| rng.pick(&alpha).clone()).collect()));
+            histories.push(("sampled".into(), (0..n).map(|_| rng.pick(&alpha).clone().via_random(&mut rng)).collect()));
         }
         // long random histories, all operation kinds
         for _ in 0..args.scale(200, 8000) {
